@@ -60,6 +60,7 @@ MatchNode(d, op, term, i) ==
   ELSE [m |-> FALSE, info |-> TRUE]
 Cond(m, inv) == (m /\ ~inv) \/ (inv /\ ~m)
 
+ValTextOf(n) == IF n.t = "str" THEN n.v ELSE LitStr(TypedHay(Hay(n.t, n.v)))
 RECURSIVE SegStep(_, _, _, _, _)
 RECURSIVE SelFrom(_, _, _, _)
 RECURSIVE CatMap(_, _, _, _, _, _)       \* concatenation of SegStep over a list of positions
@@ -92,7 +93,10 @@ KeyStep(d, c, k, segs, i, tl) ==
     ELSE IF ~tl THEN None
     ELSE CatMap(d, es, 1, segs, i, tl)             \* Array-of-Hashes pass-through
   ELSE IF kind = "set" THEN
-    LET es == Elems(d, c) hit == {j \in 1..Len(es) : d[es[j]].t = "str" /\ d[es[j]].v = k} IN
+    \* a member is named by its text: a string member by itself, any other scalar by str(value)
+    LET es == Elems(d, c)
+        hit == {j \in 1..Len(es) : (d[es[j]].t = "str" /\ d[es[j]].v = k)
+                                   \/ (d[es[j]].t \notin {"str", "null"} /\ ValTextOf(d[es[j]]) = k)} IN
     IF hit = {} THEN None ELSE Res(<<Cur(es[CHOOSE j \in hit : \A x \in hit : j <= x])>>, FALSE)
   ELSE None
 
